@@ -85,8 +85,25 @@ def check_pure(eng, run):
             if ci is None:
                 raise AnalysisError(f"anchor vanished: {modname}.{cname}")
             n += 1
-            extra = sorted(set(ci.fields) - {"transport", "protocol"})
-            stores = sorted(a for a, st in ci.field_values.items() if any(f is not None for f, _ in st))
+            def write_only(attr):
+                """a statistics counter: the methods only ever increment it (`self.x += 1`) and hand it out in a getter that does nothing else"""
+                for m in ci.methods.values():
+                    if isinstance(m.node, ast.Lambda):
+                        continue
+                    loads = [n for n in own_nodes(m.node) if isinstance(n, ast.Attribute) and n.attr in (attr, mangle(ci.name, attr)) and isinstance(n.value, ast.Name) and n.value.id == m.self_name and isinstance(n.ctx, ast.Load)]
+                    if loads and any(isinstance(n, (ast.Await, ast.Call)) and not (isinstance(n, ast.Call) and isinstance(n.func, ast.Name)) for n in own_nodes(m.node)):
+                        return False  # read in a method that also does I/O or calls the protocol
+                    aug = [n for n in own_nodes(m.node) if isinstance(n, ast.AugAssign) and isinstance(n.target, ast.Attribute) and n.target.attr in (attr, mangle(ci.name, attr))]
+                    if any(not (isinstance(a.op, ast.Add) and isinstance(a.value, ast.Constant)) for a in aug):
+                        return False
+                    plain = [n for n in own_nodes(m.node) if isinstance(n, (ast.Assign, ast.AnnAssign)) and m.name != "__init__" and m.name != "__post_init__"
+                             and any(isinstance(t, ast.Attribute) and t.attr in (attr, mangle(ci.name, attr)) for t in (n.targets if isinstance(n, ast.Assign) else [n.target]))]
+                    if plain:
+                        return False
+                return True
+
+            extra = sorted(a for a in set(ci.fields) - {"transport", "protocol"} if not write_only(a))
+            stores = sorted(a for a, st in ci.field_values.items() if any(f is not None for f, _ in st) and not write_only(a))
             ok = not extra and not stores
             if not ok:
                 run.finding("C05.pure", next(iter(ci.methods.values())), ci.node, f"{cname} carries state besides transport/protocol ({extra or stores}): data could be carried over to the next datagram")
